@@ -61,11 +61,9 @@ def convKw (W : World N V T) (s : Sig N V T) : List (N × V) → Option (List (N
     | some v', some r => some ((k, v') :: r)
     | _, _ => none
 
-def distinctKeys (kw : List (N × V)) : Bool := (kw.map (·.1)).eraseDups.length == kw.length
-
 /-- Python's binding of a call; a call never carries one keyword twice -/
 def pyBind (s : Sig N V T) (args : List V) (kw : List (N × V)) : Option (Binding N V) :=
-  if distinctKeys kw then pyBindCore s args kw else none
+  if (kw.map (·.1)).Nodup then pyBindCore s args kw else none
 
 def expected (W : World N V T) (s : Sig N V T) (args : List V) (kw : List (N × V)) : Option (Outcome N V) :=
   let nkw := normalise W s kw
